@@ -77,7 +77,11 @@ def strategy():
                 ops.append(['q', c, max(0, p0), draw(st.sampled_from(BASES))])
         # sessions: a resolver is created and tours the contigs (with returns to contigs visited before)
         for sess in range(draw(st.integers(1, 4))):
-            ops.append(['new', draw(st.sampled_from([True, True, False])), draw(st.sampled_from([True, True, False]))])
+            if draw(st.integers(0, 5)) == 0:
+                # this resolver's cache writes fail after a few lines (ENOSPC); what it leaves behind must not be trusted later
+                ops.append(['new_faulty', True, True, draw(st.integers(0, 4))])
+            else:
+                ops.append(['new', draw(st.sampled_from([True, True, False])), draw(st.sampled_from([True, True, False]))])
             tour = draw(st.lists(st.sampled_from(qcontigs + contigs[:2] * 2), min_size=1, max_size=5))
             if len(tour) >= 2 and draw(st.booleans()):
                 tour.append(tour[0])
@@ -169,7 +173,51 @@ def eval_case(case):
         returned_to_evicted = False
         cache_reader = False
         cache_written = set()
+        import singlecellmultiomics.alleleTools.alleleTools as at_mod
+        real_gzip = at_mod.gzip
+
+        class FailingGzip:
+            def __init__(self, after):
+                self.after = after
+
+            def open(self, path, mode='rb', *a, **kw):
+                h = real_gzip.open(path, mode, *a, **kw)
+                if 'w' not in mode:
+                    return h
+                outer = self
+
+                class W:
+                    def __init__(self):
+                        self.n = 0
+
+                    def write(self, x):
+                        if self.n >= outer.after:
+                            raise OSError(28, 'No space left on device')
+                        self.n += 1
+                        return h.write(x)
+
+                    def __enter__(self):
+                        return self
+
+                    def __exit__(self, *e):
+                        h.close()
+                        return False
+
+                    def close(self):
+                        h.close()
+                return W()
+
+            def __getattr__(self, a):
+                return getattr(real_gzip, a)
+        session_gzip = real_gzip
         for op in case['ops']:
+            if op[0] == 'new_faulty':
+                session_gzip = FailingGzip(op[3])
+                op = ['new', op[1], op[2]]
+                out.label('resolver with failing cache writes')
+            elif op[0] == 'new':
+                session_gzip = real_gzip
+            at_mod.gzip = session_gzip
             if op[0] == 'new':
                 lazy, cache = op[1], op[2]
                 cur_mode = '%s%s' % ('lazy' if lazy else 'eager', '+cache' if cache else '')
@@ -186,7 +234,9 @@ def eval_case(case):
             _, c, p0, base = op
             with contextlib.redirect_stdout(io.StringIO()):
                 try:
+                    at_mod.gzip = real_gzip
                     want_a, want_h = ref.getAllelesAt(c, p0, base), ref.has_location(c, p0)
+                    at_mod.gzip = session_gzip
                     got_h = cur.has_location(c, p0)
                     got_a = cur.getAllelesAt(c, p0, base)
                 except Exception as e:
@@ -226,6 +276,7 @@ def eval_case(case):
                 exp = site['carriers'].get(base, set())
                 if na and not na <= exp:
                     out.bad('reference-vs-vcf:sample-without-the-base', 'query (%s,%d,%s) -> %r but only %r carry it' % (c, p0, base, na, exp))
+        at_mod.gzip = real_gzip
         kinds = {}
         for (c, p), s in model.items():
             if s['kind'] == 'clean':
@@ -237,6 +288,12 @@ def eval_case(case):
         if cache_reader:
             out.label('cache read after write')
     finally:
+        try:
+            import singlecellmultiomics.alleleTools.alleleTools as _m
+            import gzip as _g
+            _m.gzip = _g
+        except Exception:
+            pass
         shutil.rmtree(d, ignore_errors=True)
     seen = {}
     for s, m in out.violations:
